@@ -416,6 +416,9 @@ def run_property(mod, argv) -> int:
     ctx.rule = getattr(mod, "RULE", "")
     sys.path.insert(0, str(REPO / "src"))
     try:
+        if not a.replay and REPLAY.exists():
+            for f in REPLAY.glob(f"{mod.ID}-*.json"):
+                f.unlink()
         if a.replay:
             obj = json.loads(pathlib.Path(a.replay).read_text())
             if obj.get("kind") == "tie-broken" or not hasattr(mod, "replay"):
